@@ -184,6 +184,7 @@ def handle : Handler := fun op args impl =>
         if rev then
           match inverseCoordinates L a l with
           | .ok (ss, ls) =>
+            if ss.isEmpty then "rc=1 out=" else   -- nothing remains: an error (cmd/subseq.go)
             let pieces := (ss.zip ls).map fun w => subAlign rows L w.1 w.2
             let cat := rows.zipIdx.map fun (r, i) => (r.1, pieces.flatMap fun p => match p with
               | .ok pr => ((pr.getD i ("", [])).2) | _ => [])
@@ -203,6 +204,7 @@ def handle : Handler := fun op args impl =>
           let a := pos.getD st.toNat 0
           let b := pos.getD (st + ln - 1).toNat 0
           let keep := (List.range r.2.length).filter fun j => if rev then j < a || j > b else a ≤ j && j ≤ b
+          if keep.isEmpty then "rc=1 out=" else   -- an empty result is reported as an error, never a crash
           "rc=0 out=" ++ fasta (colsOf rows keep)
     some ⟨m, verdictOf (impl == exp) "subseq-refseq-cli"⟩
   | _, _ => none
